@@ -12,9 +12,12 @@ Ltac Zify.zify_post_hook ::= Z.div_mod_to_equations.
 Module O2.
 Import Gen_Open2N2_ops.
 Record st := { ms : Z -> Z; sh : Z -> Z; hp : Z -> Z }.
+Section MC.
+Variable mc : Z.            (* template parameter maxCount of BucketOpen2N2: 1, 2 or 3 *)
+Hypothesis Hmc : 1 <= mc <= 3.
 Definition cnt (b : st) : Z := pvGetCount (ms b) (sh b) (hp b).
 (* the short-hash bytes: slot i holds an item (byte < 128 = emptyShortHash) exactly when i >= maxCount - count *)
-Definition sh_inv (b : st) : Prop := forall i, 0 <= i < 3 -> 0 <= sh b i <= 128 /\ (sh b i < 128 <-> 3 - cnt b <= i).
+Definition sh_inv (b : st) : Prop := forall i, 0 <= i < mc -> 0 <= sh b i <= 128 /\ (sh b i < 128 <-> mc - cnt b <= i).
 Definition good (b : st) : Prop := Open2N2_Proofs.enc_inv (ms b) /\ sh_inv b.
 Definition dec (b : st) : Z := Gen_Open2N2.pvGetMaxProbe (ms b).
 Definition full (b : st) : bool := IsFull (ms b) (sh b) (hp b).
@@ -23,15 +26,15 @@ Definition updP (b : st) (p : Z) : st :=
 (* AddCrt's remaining arguments: hashCode, logBucketCount, probe, newItem (hashCode is a size_t) *)
 Definition addP (a : Z * Z * Z * Z) (b : st) : st :=
   let '(hc, lbc, pr, ni) := a in
-  match AddCrt (ms b) (sh b) (hp b) (wrapU 64 hc) lbc pr ni with Ok (_, m, s, h) => {| ms := m; sh := s; hp := h |} | _ => b end.
+  match AddCrt mc (ms b) (sh b) (hp b) (wrapU 64 hc) lbc pr ni with Ok (_, m, s, h) => {| ms := m; sh := s; hp := h |} | _ => b end.
 (* Remove's remaining argument: the slot index of the removed item; the iterator points into the bucket (index < maxCount) *)
 Definition remP (a : Z * Z * Z * Z) (b : st) : option st :=
   let '(idx, _, _, _) := a in
-  if andb (Z.leb 0 idx) (Z.ltb idx maxCount) then
-    match Remove (ms b) (sh b) (hp b) idx with Ok (_, m, s, h) => Some {| ms := m; sh := s; hp := h |} | _ => None end
+  if andb (Z.leb 0 idx) (Z.ltb idx mc) then
+    match Remove mc (ms b) (sh b) (hp b) idx with Ok (_, m, s, h) => Some {| ms := m; sh := s; hp := h |} | _ => None end
   else None.
 Definition empty : st :=
-  let '(m, s) := pvSetEmpty (fun _ => 0) (fun _ => 0) (fun _ => 0) in {| ms := m; sh := s; hp := fun _ => 0 |}.
+  let '(m, s) := pvSetEmpty mc (fun _ => 0) (fun _ => 0) (fun _ => 0) in {| ms := m; sh := s; hp := fun _ => 0 |}.
 
 Lemma cnt_same b : cnt b = Gen_Open2N2.pvGetCount (ms b).
 Proof. reflexivity. Qed.
@@ -70,17 +73,17 @@ Proof. intros Hv. unfold pvGetCount. rewrite upd_same. apply Open2N2_Proofs.land
 
 Ltac split_upd := unfold upd; repeat match goal with |- context [Z.eqb ?a ?b] => destruct (Z.eqb_spec a b) end; cbv beta iota.
 
-Theorem add_spec a b : good b -> 0 <= cnt b < 3 ->
+Theorem add_spec a b : good b -> 0 <= cnt b < mc ->
   good (addP a b) /\ dec (addP a b) = dec b /\ cnt (addP a b) = cnt b + 1.
 Proof.
   intros Hg Hc. destruct a as [[[hc lbc] pr] ni]. pose proof Hg as ((H0 & H1 & Hm & He) & Hs).
   pose proof (cnt_val b Hg) as Hcv. unfold addP, AddCrt. fold (cnt b).
-  replace (Z.ltb (cnt b) maxCount) with true by (symmetry; apply Z.ltb_lt; unfold maxCount; lia).
+  replace (Z.ltb (cnt b) mc) with true by (symmetry; apply Z.ltb_lt; lia).
   destruct (byte_inc (ms b 1) H1 ltac:(lia)) as (Hw & Hq & Hr).
   pose proof (short_hash_range (wrapU 64 hc) (wrapU_range 64 hc ltac:(lia))) as Hsh.
   set (shv := pvCalcShortHash (wrapU 64 hc)) in *. clearbody shv.
-  replace (wrapU 64 (wrapU 64 (maxCount - 1) - cnt b)) with (2 - cnt b)
-    by (unfold maxCount; rewrite (wrapU_small 64 (3 - 1)) by lia; symmetry; apply wrapU_small; lia).
+  replace (wrapU 64 (wrapU 64 (mc - 1) - cnt b)) with (mc - 1 - cnt b)
+    by (rewrite (wrapU_small 64 (mc - 1)) by lia; symmetry; apply wrapU_small; lia).
   unfold good, dec, cnt. cbn [ms sh hp]. rewrite Hw.
   split; [split; [apply enc_inv_byte1; [exact (proj1 Hg)|lia|exact Hq]|]|].
   - intros i Hi. unfold sh_inv, cnt in *. cbn [ms sh hp]. rewrite cnt_byte1 by lia. rewrite Hr, <- Hcv.
@@ -88,28 +91,28 @@ Proof.
   - unfold cnt in *. split; [apply dec_byte1; [exact Hq|lia|lia]|]. rewrite cnt_byte1 by lia. lia.
 Qed.
 
-Theorem rem_spec a b b' : good b -> 0 < cnt b <= 3 -> remP a b = Some b' ->
+Theorem rem_spec a b b' : good b -> 0 < cnt b <= mc -> remP a b = Some b' ->
   good b' /\ dec b' = dec b /\ cnt b' = cnt b - 1.
 Proof.
   intros Hg Hc Hr. destruct a as [[[idx x1] x2] x3]. pose proof Hg as ((H0 & H1 & Hm & He) & Hs).
   pose proof (cnt_val b Hg) as Hcv. unfold remP in Hr.
-  destruct (Z.leb_spec 0 idx) as [Hi0|]; [|discriminate]. destruct (Z.ltb_spec idx maxCount) as [Hi3|]; [|discriminate].
-  cbn [andb] in Hr. unfold Remove in Hr. fold (cnt b) in Hr. unfold maxCount in *.
-  rewrite (wrapU_small 64 (3 - cnt b)) in Hr by lia.
-  destruct (Z.geb_spec idx (3 - cnt b)) as [Hge|]; [|discriminate].
+  destruct (Z.leb_spec 0 idx) as [Hi0|]; [|discriminate]. destruct (Z.ltb_spec idx mc) as [Hi3|]; [|discriminate].
+  cbn [andb] in Hr. unfold Remove in Hr. fold (cnt b) in Hr.
+  rewrite (wrapU_small 64 (mc - cnt b)) in Hr by lia.
+  destruct (Z.geb_spec idx (mc - cnt b)) as [Hge|]; [|discriminate].
   destruct (byte_dec (ms b 1) H1 ltac:(lia)) as (Hw & Hq & Hrm). rewrite Hw in Hr.
   match type of Hr with Some ?t = _ => assert (Hb' : b' = t) by congruence end. clear Hr. subst b'.
   unfold good, dec, cnt. cbn [ms sh hp].
   split; [split; [apply enc_inv_byte1; [exact (proj1 Hg)|lia|exact Hq]|]|].
   - intros i Hi. unfold sh_inv, cnt in *. cbn [ms sh hp]. rewrite cnt_byte1 by lia. rewrite Hrm, <- Hcv.
     set (c := pvGetCount (ms b) (sh b) (hp b)) in *.
-    pose proof (Hs i Hi) as Hsi. pose proof (Hs (3 - c) ltac:(lia)) as Hsl. pose proof (Hs idx ltac:(lia)) as Hsx.
+    pose proof (Hs i Hi) as Hsi. pose proof (Hs (mc - c) ltac:(lia)) as Hsl. pose proof (Hs idx ltac:(lia)) as Hsx.
     rewrite empty_sh_val. clearbody c. split_upd; subst; lia.
   - unfold cnt in *. split; [apply dec_byte1; [exact Hq|lia|lia]|]. rewrite cnt_byte1 by lia. lia.
 Qed.
 
 (* IsFull (what HashSet::pvAddNogrow tests) says exactly "count = maxCount" *)
-Theorem full_iff b : good b -> 0 <= cnt b <= 3 -> (full b = true <-> cnt b = 3).
+Theorem full_iff b : good b -> 0 <= cnt b <= mc -> (full b = true <-> cnt b = mc).
 Proof.
   intros (_ & Hs) Hc. unfold full, IsFull. rewrite empty_sh_val. specialize (Hs 0 ltac:(lia)).
   destruct (Z.ltb_spec (sh b 0) 128); split; intros; try discriminate; try reflexivity; lia.
@@ -141,19 +144,20 @@ Proof. intros Hb Hp. destruct (upd_all b p Hb Hp) as (_ & _ & _ & H). exact H. Q
 End Upd.
 
 (* the constructor / Clear (pvSetEmpty) produce the state all histories start from *)
-Lemma setempty_good m s h : let '(m', s') := pvSetEmpty m s h in
+Lemma setempty_good m s h : let '(m', s') := pvSetEmpty mc m s h in
   good {| ms := m'; sh := s'; hp := h |} /\ cnt {| ms := m'; sh := s'; hp := h |} = 0 /\ dec {| ms := m'; sh := s'; hp := h |} = 0.
 Proof.
   unfold pvSetEmpty, good, cnt, dec, sh_inv, Open2N2_Proofs.enc_inv, pvGetCount, Gen_Open2N2.pvGetMaxProbe. cbn [ms sh hp].
-  rewrite !upd_same. rewrite (upd_other _ 1 0 0) by lia. rewrite upd_same. rewrite empty_sh_val. unfold maxCount.
+  rewrite !upd_same. rewrite (upd_other _ 1 0 0) by lia. rewrite upd_same. rewrite empty_sh_val.
   split; [split; [cbn; repeat split; intros; lia|]|cbn; split; reflexivity].
-  intros i Hi. destruct (Z.leb_spec 0 i); [|lia]. destruct (Z.ltb_spec i 3); [|lia]. cbn. lia.
+  intros i Hi. destruct (Z.leb_spec 0 i); [|lia]. destruct (Z.ltb_spec i mc); [|lia]. cbn. lia.
 Qed.
 Lemma empty_good : good empty /\ cnt empty = 0 /\ dec empty = 0.
 Proof. exact (setempty_good (fun _ => 0) (fun _ => 0) (fun _ => 0)). Qed.
-Lemma clear_resets m s h : let '(m', s') := Clear m s h in
+Lemma clear_resets m s h : let '(m', s') := Clear mc m s h in
   good {| ms := m'; sh := s'; hp := h |} /\ cnt {| ms := m'; sh := s'; hp := h |} = 0 /\ dec {| ms := m'; sh := s'; hp := h |} = 0.
 Proof. exact (setempty_good m s h). Qed.
+End MC.
 End O2.
 
 (* ------------------------------------------------------------------ OpenN1<maxCount, reverse> / Open8 (= OpenN1<7, false>) *)
